@@ -341,6 +341,18 @@ def o7(W, ob):
         # the user-visible Disconnected event is pushed in that arm
         cs = [s for f2, s in W.constructions('GgrsEvent', 'Disconnected') if f2 is f]
         ob.check(len(cs) == 1, '%s|forwards-disconnected' % short(f.path), 'Disconnected is forwarded once', 'GgrsEvent::Disconnected constructed %d times' % len(cs), where(f))
+        # one endpoint event -> one session event: an endpoint stands for one address but may carry several player handles; a lifecycle event built inside the loop
+        # over the handles is reported once per handle
+        loops = G.loop_by_header()
+        nl = 0
+        for v in ('Synchronizing', 'Synchronized', 'NetworkInterrupted', 'NetworkResumed', 'Disconnected'):
+            for c in [c for f2, c in W.constructions('GgrsEvent', v) if f2 is f]:
+                nl += 1
+                inl = [h for h, body in loops.items() if c.bb in body]
+                ob.check(not inl, '%s|one-per-endpoint-event|%s' % (short(f.path), v), 'GgrsEvent::%s in %s is built outside every loop: once per endpoint event' % (v, short(f.path)),
+                         'GgrsEvent::%s in %s is built inside a loop (over the player handles of the endpoint?): an address that hosts several players gets the event several '
+                         'times' % (v, short(f.path)), where(f, c.line))
+        ob.require_count(nl, 5, 'lifecycle events forwarded by %s' % short(f.path))
     # a stopped endpoint reports nothing: every emission in poll/handle_message requires Running (or the handshake state)
     for name in (UDP + '::poll', UDP + '::handle_message', UDP + '::send_input'):
         f = W.fn(name)
@@ -384,8 +396,8 @@ OBLIGATIONS = [
      'refreshes; NUM_SYNC_PACKETS == 5; MAX_EVENT_QUEUE_SIZE == 100.', o5),
     ('C12.O6', 'event queue bound', 'every push to a session event queue is followed, before the function returns, by the trim loop '
      '`while len > MAX_EVENT_QUEUE_SIZE { pop_front }`.', o6),
-    ('C12.O7', 'Disconnected is terminal', 'both handle_event implementations stop the endpoint on Event::Disconnected; poll/handle_message '
-     'emit events only while Running.', o7),
+    ('C12.O7', 'Disconnected is terminal', 'both handle_event implementations stop the endpoint on Event::Disconnected and build each lifecycle event outside every '
+     'loop (once per endpoint event, not once per player handle of the address); poll/handle_message emit events only while Running.', o7),
     ('C12.O9', 'every accepted message is a sign of life', 'in handle_message the one store to last_recv_time lies on every path from entry to the dispatch of the message (all 8 kinds, every protocol state incl. the handshake): the interruption / disconnect timers measure silence since the last accepted packet.', c07.liveness_refresh),
     ('C12.O10', 'interruption timers and the announced remaining time (= C07.O1)', 'NetworkInterrupted / Disconnected are raised by the two timer guards and NetworkInterrupted carries exactly disconnect_timeout - disconnect_notify_start (floored at zero), in milliseconds; see C07.O1', c07.o1),
     ('C12.H', 'helpers the rules above rely on', 'the bodies of the helpers named by this property\'s rules compute what the rules assume (protocol_state_tests); see rules/helpers.py', helpers.bundle('protocol_state_tests')),
@@ -396,7 +408,7 @@ OBLIGATIONS = [
     ('C12.T', 'the endpoint\'s timer table', 'keep-alive, quality report and the interruption timers decide what lifecycle events are raised and when: per timer the field, duration, protocol state, action, re-arm site and writer set are read off poll() and compared with the table in rules/timers.py -- the action\'s guard is exactly `state & field + duration < now`, firing re-arms the timer on every path, nothing else writes the timestamp, every stored value is a clock reading, durations are the documented ones.', timers.rule),
     ('C12.V', 'no unreviewed condition in the pinned helpers', 'for each helper whose body this property\'s rules pin (tables/condition_terms.json), the terms its path conditions are built from (fields, parameters, call results -- no constants, operators or local names) are a subset of the reviewed vocabulary: one more `if` in front of a pinned result (a lock that may time out, "only while an endpoint is running") is reported; see rules/vocab.py', vocab.rule_for('C12')),
     ('C12.S', 'state inventory', 'every field of the structs this property\'s rules read (tables/state.json) is known, and is written only by its reviewed writers (or helpers only they call): a new field is new state across calls -- a cache, a flag, a stored deadline -- that nothing has shown to stay in step; a new writer is a second place that resets, re-arms or moves something; see rules/inventory.py', inventory.state_rule_for('C12')),
-    ('C12.K', 'call inventory', 'every reviewed call of a function that writes state (tables/call_edges.json, callers in the structs this property\'s rules read) is still made, directly or through helpers: a call deleted as redundant is reported; see rules/inventory.py', inventory.call_rule_for('C12')),
+    ('C12.K', 'call inventory', 'every reviewed call of a function that writes state (tables/call_edges.json, callers in the structs this property\'s rules read) is still made, directly or through helpers: a call deleted as redundant is reported; likewise the arguments of logging / debug-only macros change no state, no unreviewed call of a state-writing function appears (tables/call_edges_all.json), the types of the locals a loop carries from one iteration to the next (tables/carried.json) and, per function and field, how reads and writes of the field are ordered (tables/orders.json: a snapshot taken before instead of after an update) are as reviewed; see rules/inventory.py', inventory.call_rule_for('C12')),
     ('C12.A', 'expression inventory', 'every arithmetic expression handed to a call or stored in a field, and what every closure given to an iterator adaptor / collection method returns, is one of the reviewed expressions of its function (tables/expressions.json; linear / guard normal forms, no local names): a changed literal, operator, operand order, factor, predicate or sort key is reported; see rules/inventory.py', inventory.expr_rule_for('C12')),
     ('C12.Z', 'constants and type shapes', 'every named constant keeps its reviewed value and every type its reviewed shape -- variants and fields in order, with their types (tables/shapes.json): a ring size, sentinel, default or wire constant changed by value, a frame or checksum stored in a narrower type, a variant or field added, removed or reordered is reported; see rules/inventory.py', inventory.shape_rule),
 ]
